@@ -66,6 +66,7 @@ static int mem_tok(struct instr *instr_buffer, char *mem, int opd_pos) {
   int base = 0;
   // set index for memory operand
   instr_buffer->mem_index = opd_pos;
+  FAIL_IF_MSG(check_mem_syntax(mem), "invalid memory syntax\n");
   // find the index position of the memory displacement string
   int index_add = find_add_mem(mem, &neg, &base);
   int index_const = find_mem_const(mem, &neg, &base);
